@@ -382,7 +382,7 @@ def run(ctx):
                         'CAS/exchange) and tested with ThreadSanitizer, not proved',
                         'a detached Row object is used/destroyed by one thread at a time (hand-over between threads is synchronised by the client)',
                         'MemPool hands out only free buffers (C20/C09) and may overwrite a buffer it holds; the table outlives its detached rows']
-    ctx.regen(['gen_datarow.json'])      # T-gen: DataRow::ptGetRaw / ptExtractRaw, used inside TreiberRows.stepl
+    ctx.regen(['gen_datarow.json', 'gen_owner.json'])      # T-gen: DataRow::~DataRow / ptGetRaw / ptExtractRaw, DataTable::pvDeallocateFreeRaws / pvAllocateRaw
     ctx.prove()
     flags = ['-pthread']
     harness = ctx.cxx('harness.cpp', 'harness', flags, sanitize=False)
